@@ -1251,6 +1251,22 @@ def crop_to_target_areas(
             ),
         )
 
+    # Clipping might result in GeometryCollections when a trace both intersects
+    # the areas along a line and touches an area boundary in a point. Explode
+    # such rows to their parts so that the line parts (and their column data)
+    # are kept.
+    is_collection = [
+        isinstance(geom, GeometryCollection)
+        for geom in clipped_traces.geometry.values
+    ]
+    if any(is_collection):
+        clipped_traces = pd.concat(
+            [
+                clipped_traces.loc[[not val for val in is_collection]],
+                clipped_traces.loc[is_collection].explode(index_parts=False),
+            ]
+        )
+
     # Clipping might result in Point geometries
     # Filter to only LineStrings and MultiLineStrings
     clipped_traces = clipped_traces.loc[
